@@ -510,7 +510,19 @@ def blockOnStage (w : World) (c : TCtl) (f mode : Nat) : Except Panic World := d
     let (w, o) := w.pushObj (.arc {})
     let a := w.arcs.length
     let w := { w with arcs := w.arcs ++ [({ obj := o } : ArcInfo)] }
-    pure ((w.modFut f fun s => { s with notify := n, arc := a }).setStage 10)
+    pure ((w.modFut f fun s => { s with notify := n, arc := a }).setStage (if mode == 5 then 50 else 10))
+  -- mode 5: first poll = `cx.waker().wake_by_ref()` (`notify.notify()`: branch point, then its effect), Pending;
+  -- `notify.wait()`; the second poll is Ready
+  | 50 => (w.setStage 51).branch fs.notify .opaque
+  | 51 => do
+    let w ← w.notifyEffect fs.notify
+    let t := w.tid
+    let (w, st) ← w.notifyWait1 fs.notify
+    pure (w.modCtl t fun c => { c with stage := if st == 1 then 53 else 52 })
+  | 53 => do
+    let w ← w.notifyWait2 fs.notify
+    pure (w.setStage 52)
+  | 52 => (w.setStage 40).branch ao .arcDec
   | 10 => w.primStart f (pollPrim mode) 11
   | 11 => do
     -- first flag check of `poll`
@@ -581,7 +593,7 @@ def blockOnStage (w : World) (c : TCtl) (f mode : Nat) : Except Panic World := d
     if slotMode mode then
       let m ← w.getMutex fs.slotMutex
       (w.setStage 45).branch fs.slotMutex .opaque (block := m.lock.isSome) (wait := true)
-    else if mode == 3 || mode == 4 then pure (w.complete (.val 7))
+    else if mode == 3 || mode == 4 || mode == 5 then pure (w.complete (.val 7))
     else
       let m ← w.getMutex fs.awMutex
       (w.setStage 44).branch fs.awMutex .opaque (block := m.lock.isSome) (wait := true)
